@@ -22,7 +22,7 @@ ASSUMPTIONS = ['dense operators are M1..Md x N1..Nd arrays obtained by the harne
 REQUIRED_REACH = ['_tt_base:TT.__matmul__', '_aux_ops:dense_matvec', '_tt_base:TT.t', '_tt_base:TT.__add__', '_tt_base:TT.__sub__', '_tt_base:TT.__mul__',
                   '_tt_base:TT.full', '_tt_base:TT.__truediv__', '_tt_base:TT.__neg__']
 REQUIRED_COUNTS = {'history_value_checks': 200, 'branch:A@x': 1, 'branch:x@A': 1, 'branch:A@B': 1, 'branch:A@dense/batch0': 1, 'branch:A@dense/batch1': 1, 'branch:A@dense/batch2': 1,
-                   'branch:A@dense/batch3': 1, 'branch:t': 1, 'branch:add': 1, 'branch:sub': 1, 'branch:mul': 1, 'branch:full/order1': 1,
+                   'branch:A@dense/batch3': 1, 'branch:A@dense/more-than-4096-batch-entries': 4, 'branch:t': 1, 'branch:add': 1, 'branch:sub': 1, 'branch:mul': 1, 'branch:full/order1': 1,
                    'branch:full/order>=2': 1, 'branch:scalar': 1, 'exact_comparisons': 100}
 LINE_FUNCS = ['TT.__matmul__', 'dense_matvec', 'TT.t', 'TT.full']
 DT = ['f64', 'f64', 'f32', 'c128']
@@ -52,6 +52,12 @@ def cases(tier, seed):
         cs.append({'gen': 'op', 'op': OPS[i % len(OPS)], 'M': M, 'K': K, 'N': N,
                    'RA': gens.rank_profile(rng, d, prof, 3), 'RB': gens.rank_profile(rng, d, rng.choice(['distinct', 'rand', 'one']), 3),
                    'dtype': rng.choice(DT), 'vals': rng.choice(['int', 'int', 'int', 'gauss']), 'batch': [rng.randint(1, 3) for _ in range(i % 4)]})
+    # A @ dense with thousands of batch entries (1-3 batch dims, 4100 .. 33000 entries, not multiples of a power of two): blocked evaluation must return every entry
+    for i in range(8 if tier == 'quick' else 64):
+        d = rng.choice([1, 2, 3])
+        M, K, N = three_distinct(rng, d, (1, 2, 3))
+        cs.append({'gen': 'op', 'op': 'Adense', 'M': M, 'K': K, 'N': N, 'RA': gens.rank_profile(rng, d, 'rand', 3), 'RB': gens.rank_profile(rng, d, 'one', 3), 'dtype': ['f64', 'c128', 'f32'][i % 3],
+                   'vals': 'int' if i % 2 else 'gauss', 'batch': [[9001], [100, 90], [21, 20, 25], [4100], [33000], [3, 2731], [8193], [2, 2, 4099]][i % 8]})
     # directed: square, equal-rank (where transposed letters hide) and order-1 operators, every op
     for op in OPS:
         for (M, K, N, RA, RB) in [([2], [3], [4], [1, 1], [1, 1]), ([1], [1], [1], [1, 1], [1, 1]), ([2, 2], [2, 2], [2, 2], [1, 2, 1], [1, 2, 1]),
@@ -145,6 +151,8 @@ def run_op(case, ctx, g):
         scale, bound = sA * dn.fro(X), bA * float(X.abs().sum())
         res = ctx.lib('TTM@dense', lambda a, b: a @ b, A, X)
         ctx.count('branch:A@dense/batch%d' % nb)
+        if dn.prod(batch) > 4096:
+            ctx.count('branch:A@dense/more-than-4096-batch-entries')
         key += '/batch%d' % nb
         if isinstance(res, Raised):
             ctx.viol(key + '/clause=raises:%s@%s' % (res.type, res.func), '%s raised %r' % (what, res))
